@@ -1,4 +1,5 @@
 #!/bin/bash
+export GOSYM_EVIDENCE_DIR=/tmp/gosym-evidence-scratch; mkdir -p $GOSYM_EVIDENCE_DIR
 # Runs quick checks against a behaviour-preserving refactoring: any VIOLATION is a false alarm.
 # usage: benign.sh <name> <id>...
 name=$1; shift
